@@ -21,19 +21,21 @@ def decodes (t : UInt8) (body : Bytes) : Prop :=
 (1,1) whatever follows -/
 theorem classify_marker (h rest : Bytes) (hl : h.length = 19) (hm : h.take 16 ≠ Spec.marker) :
     ∃ d, readOne (h ++ rest) = .error (.notif ⟨1, 1, d⟩ true) := by
-  sorry
+  refine ⟨[], ?_⟩
+  rw [Lemmas.readOne_header h rest hl, if_pos hm]
 
 /-- … otherwise a length below 19 or above 4096 yields (1,2) -/
 theorem classify_length (h rest : Bytes) (hl : h.length = 19) (hm : h.take 16 = Spec.marker)
     (hlen : Spec.n16 (h.getD 16 0) (h.getD 17 0) < 19 ∨ Spec.n16 (h.getD 16 0) (h.getD 17 0) > 4096) :
     ∃ d, readOne (h ++ rest) = .error (.notif ⟨1, 2, d⟩ true) := by
-  sorry
+  refine ⟨[], ?_⟩
+  rw [Lemmas.readOne_header h rest hl, if_neg (show ¬ (h.take 16 ≠ Spec.marker) from fun hne => hne hm), if_pos hlen]
 
 /-- … otherwise, once the whole message has arrived, an unknown type yields (1,3) carrying the
 offending type octet as data -/
 theorem classify_type (t : UInt8) (body rest : Bytes) (hb : body.length ≤ 4077) (ht : Spec.knownType t = false) :
     readOne (Spec.frame t body ++ rest) = .error (.notif ⟨1, 3, [t]⟩ true) := by
-  sorry
+  rw [Lemmas.readOne_frame t body rest hb, Lemmas.messageFromBytes_unknown t body ht]
 
 /-- … otherwise the message is delimited by the length field alone: exactly `body` is handed to
 `messageFromBytes` and exactly `rest` remains -/
@@ -42,7 +44,9 @@ theorem delimit (t : UInt8) (body rest : Bytes) (hb : body.length ≤ 4077) (ht 
       (match messageFromBytes body t with
        | .ok m => .ok (m, rest)
        | .error e => .error e) := by
-  sorry
+  -- holds for every type octet; `ht` only selects the case the property talks about
+  have _ := ht
+  exact Lemmas.readOne_frame t body rest hb
 
 /-- every well-formed message that precedes a faulty one is processed: for a stream made of whole
 well-formed messages followed by anything, the reader yields exactly those messages, in order,
@@ -53,22 +57,23 @@ theorem prefix_processed (ms : List (UInt8 × Bytes)) (tail : Bytes)
     ∃ rs : List RMsg, rs.length = ms.length ∧
       (∀ i (hi : i < ms.length), ∀ r, rs[i]? = some r → r.type = (ms[i]'hi).1 ∧
          (∀ b, r = .update b → b = (ms[i]'hi).2)) ∧
-      readAll ((ms.map fun m => Spec.frame m.1 m.2).flatten ++ tail) = (rs ++ (readAll tail).1, (readAll tail).2) := by
-  sorry
+      readAll ((ms.map fun m => Spec.frame m.1 m.2).flatten ++ tail) = (rs ++ (readAll tail).1, (readAll tail).2) :=
+  Lemmas.prefix_processed_aux ms tail fun m hm =>
+    ⟨(hms m hm).1, (hms m hm).2.1, (hms m hm).2.2.1, (hms m hm).2.2.2⟩
 
 /-- a stream that ends inside a header or body ends the reader with a plain I/O error, never a
 NOTIFICATION -/
-theorem truncated_no_notification (s : Bytes) (h : s.length < 19) : readAll s = ([], .other) := by
-  sorry
+theorem truncated_no_notification (s : Bytes) (h : s.length < 19) : readAll s = ([], .other) :=
+  Lemmas.truncated_no_notification s h
 
 /-- the reader never panics, on streams of every length -/
-theorem reader_no_panic (s : Bytes) : (readAll s).2 ≠ .panic := by
-  sorry
+theorem reader_no_panic (s : Bytes) : (readAll s).2 ≠ .panic :=
+  Lemmas.reader_no_panic s
 
 /-- a NOTIFICATION corebgp sends reaches the wire with exactly the code, subcode and data bytes
 it was constructed with (data of every length that fits, including exactly one byte) -/
 theorem notif_wire (n : Notif) (h : n.data.length ≤ 4075) :
-    encodeNotif n = Spec.frame 3 ([n.code, n.sub] ++ n.data) := by
-  sorry
+    encodeNotif n = Spec.frame 3 ([n.code, n.sub] ++ n.data) :=
+  Lemmas.notif_wire n h
 
 end CoreBGP.Props.C08
